@@ -107,6 +107,32 @@ CHECKS = {
              'proxy signal subscriptions with matching and mismatching signatures, and through Bus.dbus_AddMatch; after '
              'each delivery the invoked callbacks must equal the active rules the reference matcher accepts.',
         note=TRUST),
+    'C15': dict(
+        category='exploration', design_ref='DESIGN.md section 3 C15',
+        technique='Hypothesis-generated interface definitions, XML round trip with an independent ElementTree reading and reference signature splitter',
+        text='Generated interface definitions (methods, signals, properties with signatures from the full grammar, all '
+             'access and notification modes, incremental definition) are turned into introspection XML, read back with '
+             'getInterfacesFromXML (replace on/off, known interfaces pre-registered) and independently with ElementTree; '
+             'names, signatures, argument counts, access modes must survive and a proxy built from the parsed interfaces '
+             'must accept exactly the declared calls.',
+        note=TRUST),
+    'C16': dict(
+        category='exploration', design_ref='DESIGN.md section 3 C16',
+        technique='model-based export/unexport histories: bounded-exhaustive + Hypothesis, every path queried after every step',
+        text='All admissible export/unexport histories to length 4/5 over a 6-path pool with prefix traps, and random ones '
+             'to 30 steps over 9 paths, run on DBusObjectHandler; after every step an ordinary call, Introspect and '
+             'GetManagedObjects are issued at every pool path and compared with a set model; the InterfacesAdded / '
+             'InterfacesRemoved signals of every step are checked.',
+        note='recording connection stub; replies decoded by the strict reference decoder; ' + TRUST),
+    'C17': dict(
+        category='exploration', design_ref='DESIGN.md section 3 C17',
+        technique='model-based property histories (Hypothesis) on generated class hierarchies against a store model',
+        text='Generated class hierarchies (properties of every wrapper type, s, d and containers; all access and '
+             'notification modes; explicit and implicit interface binding; colliding names; base/subclass '
+             'contributions) are driven with histories of local assignment and remote Get/Set/GetAll with right, '
+             'empty, other and unknown interface and right/wrong names; values, variant types, error conditions, GetAll '
+             'contents and PropertiesChanged signals are compared with a store model.',
+        note=TRUST),
     'C18': dict(
         category='exploration', design_ref='DESIGN.md section 3 C18',
         technique='bounded-exhaustive string enumeration + Hypothesis, differential against hand-written grammar recognisers',
